@@ -38,7 +38,7 @@ def subject_texts(tree, tseed, extra=(), limit=8):
         if t not in seen:
             seen.add(t)
             res.append(t)
-    return res
+    return dsl.bounded_texts(tree, res) or ['']
 
 
 STATES = ['plain', 'plain', 'compile', 'gcp_keep', 'gcp_discard']
